@@ -57,7 +57,7 @@ type vc15FSLine struct {
 }
 
 var vc15NameAlphabet = []string{
-	"example", "a", "b", "xn--e1afmkfd", `q"uote`, `back\slash`, "tab\there", "<tag>&", "юникод", "\u2028sep", "nul\x01ctl",
+	"example", "a", "b", "xn--e1afmkfd", "WwW", "ExAmPlE", "oRg", `q"uote`, `back\slash`, "tab\there", "<tag>&", "юникод", "\u2028sep", "nul\x01ctl",
 	strings.Repeat("l", 63), "A-Z", "under_score", `\046dot`, "{brace}", "[]", "'", " sp ace ",
 }
 
@@ -161,7 +161,7 @@ func vc15DrawEntry(t *rapid.T, label string) (e *querylog.Entry, k vc15Key, both
 func vc15Concurrent(tt *testing.T, part string, perWriterMax int) {
 	st := vstat.New("C15", part,
 		"rapid: 16 goroutines x 1-N generated entries (names and rule texts needing JSON escaping, line feeds inside rule texts, long rules, optional client address) written through one querylog.FileSystem after a start barrier; non-trivial = at least two writers were inside Write at the same time (measured); distinct by the multiset of written keys",
-		"overlap>=2", "both-stages-result", "rule-with-linefeed", "long-line>4096", "with-ip", "without-ip")
+		"overlap>=2", "both-stages-result", "logged-name-of-mixed-case-question", "rule-with-linefeed", "long-line>4096", "with-ip", "without-ip")
 	st.Finish(tt)
 
 	dir := tt.TempDir()
@@ -192,6 +192,10 @@ func vc15Concurrent(tt *testing.T, part string, perWriterMax int) {
 				want = append(want, fmt.Sprintf("%+v", k))
 				if strings.Contains(k.M, "\n") {
 					classes["rule-with-linefeed"] = true
+				}
+
+				if k.N != strings.ToLower(k.N) {
+					classes["logged-name-of-mixed-case-question"] = true
 				}
 
 				if k.IP != "" {
